@@ -2,5 +2,6 @@ import XtModel.Model.Wire
 import XtModel.Model.Encoding
 import XtModel.Props.C07
 import XtModel.Model.MsgpackSize
+import XtModel.Model.MsgpackCodec
 import XtModel.Lemmas.Msgpack
 import XtModel.Props.C18
